@@ -176,6 +176,7 @@ func genSearchCases(r *Rng, count int, corpus map[string][]Seed) []*Case {
 	grid(cssTails, []string{"css", "local-css"})
 	grid(jsonTails, []string{"json"})
 	atomGrid(r, corpus, mk)
+	inputSourceMapCases(r, count/4, mk)
 	for i := 0; i < count; i++ {
 		mode := r.Intn(100)
 		switch {
@@ -293,7 +294,7 @@ func runSearch(r *Rng, n int, tier string, corpus map[string][]Seed) *Stats {
 	st := NewStats("c16-search", r.U64())
 	count := 3 * n // the search is cheap (about 70 cases/s on 8 workers): three cases per unit of n
 	cases := genSearchCases(r, count, corpus)
-	limit := 8 * time.Second
+	limit := 8 * time.Second // of the child's CPU time
 	t0 := time.Now()
 	outs := RunPool(cases, poolSize(), limit)
 	elapsed := time.Since(t0)
@@ -317,7 +318,11 @@ func runSearch(r *Rng, n int, tier string, corpus map[string][]Seed) *Stats {
 		case o.Status == "skipped":
 			st.Histogram["skipped-after-failures"]++
 		case o.Status == "timeout":
-			st.Fail("hang: no result within the wall-clock limit (re-run alone with three times the limit)", describeCase(c), fmt.Sprintf("no result after %d ms for %d input bytes", o.Millis, caseSize(c)), "terminates within seconds")
+			st.Fail("hang: the build consumed more CPU time than the limit without a result (confirmed by a re-run alone)", describeCase(c), fmt.Sprintf("no result after %d ms of CPU (%d ms wall) for %d input bytes", o.CPUMillis, o.Millis, caseSize(c)), "terminates within seconds")
+		case o.Status == "blocked":
+			st.Fail("deadlock: no result and no CPU progress (confirmed by a re-run alone)", describeCase(c), fmt.Sprintf("no result after %d ms wall with only %d ms of CPU for %d input bytes", o.Millis, o.CPUMillis, caseSize(c)), "terminates within seconds")
+		case o.Status == "starved":
+			st.Histogram["inconclusive-starved-by-machine-load"]++
 		case o.Status == "died":
 			st.Fail("crash: the process died while building this input", describeCase(c), clip(o.Stderr, 2500), "ordinary diagnostics or output")
 		case o.Status == "panic":
@@ -372,4 +377,3 @@ func hashBytes(c *Case) uint64 {
 	}
 	return h
 }
-
